@@ -267,7 +267,7 @@ void disasm_range_8008(
       printf("%d-%d\n", cycles_min, cycles_max);
     }
 
-    start = start + 2;
+    start = start + count;
   }
 }
 
